@@ -86,7 +86,7 @@ type c09tlsResult struct {
 	pending   int
 }
 
-func runC09TLS(t *testing.T, c *C09TLSCase) (res c09tlsResult) {
+func runC09TLS(t *testing.T, c *C09TLSCase, teardown bool) (res c09tlsResult) {
 	t.Helper()
 	defer func() {
 		if p := recover(); p != nil {
@@ -102,12 +102,12 @@ func runC09TLS(t *testing.T, c *C09TLSCase) (res c09tlsResult) {
 		}
 	}()
 	cert := testCert() // (made outside the bubble: the key generation may use the runtime's own goroutines)
-	synctest.Test(t, func(t *testing.T) { res = runC09TLSInner(c, cert) })
+	synctest.Test(t, func(t *testing.T) { res = runC09TLSInner(c, cert, teardown) })
 
 	return res
 }
 
-func runC09TLSInner(c *C09TLSCase, cert tls.Certificate) (res c09tlsResult) { //nolint:cyclop
+func runC09TLSInner(c *C09TLSCase, cert tls.Certificate, teardown bool) (res c09tlsResult) { //nolint:cyclop
 	n := sim.NewNet()
 	logger := sim.NewLogger(80)
 	shim := &World{net: n}
@@ -130,6 +130,7 @@ func runC09TLSInner(c *C09TLSCase, cert tls.Certificate) (res c09tlsResult) { //
 		return c09tlsResult{kind: "harness", msg: err.Error()}
 	}
 	var open []net.Conn
+	var dialled []*sim.Conn
 	defer func() {
 		_ = srv.Close()
 		for _, o := range open {
@@ -141,8 +142,12 @@ func runC09TLSInner(c *C09TLSCase, cert tls.Certificate) (res c09tlsResult) { //
 	port := 20000
 	dial := func(host byte) (*sim.Conn, error) {
 		port++
+		dc, derr := n.DialTCPFrom(&net.TCPAddr{IP: net.IPv4(10, 1, 0, host), Port: port}, srvAddr)
+		if derr == nil {
+			dialled = append(dialled, dc)
+		}
 
-		return n.DialTCPFrom(&net.TCPAddr{IP: net.IPv4(10, 1, 0, host), Port: port}, srvAddr)
+		return dc, derr
 	}
 	ccfg := &tls.Config{InsecureSkipVerify: true, MinVersion: tls.VersionTLS12} //nolint:gosec
 	fail := func(kind, f string, a ...any) c09tlsResult {
@@ -284,6 +289,18 @@ func runC09TLSInner(c *C09TLSCase, cert tls.Certificate) (res c09tlsResult) { //
 	if r := good("after all parties"); r != nil {
 		return *r
 	}
+	if teardown {
+		// C15: once the server has been closed nothing remains - no connection the listener
+		// accepted may still be open at the server's end, however its handshake went
+		_ = srv.Close()
+		time.Sleep(11 * time.Second) // longer than the handshake timeout
+		synctest.Wait()
+		for i, dc := range dialled {
+			if !dc.Peer().IsClosed() {
+				return fail("accepted-connection-open-after-close", "connection %d (%v) accepted by the TLS listener is still open at the server's end after Server.Close", i, dc.LocalAddr())
+			}
+		}
+	}
 
 	return res
 }
@@ -313,7 +330,7 @@ func TestC09TLS(t *testing.T) {
 	r.Assume("a well-formed party (TLS handshake + Binding) is served within 5 s of virtual time whatever other connections of the same listener do; no real server work takes virtual time, so any wait is a wait for another party")
 	do := func(c *C09TLSCase, sample string) (string, string) {
 		r.Eval(1)
-		res := runC09TLS(t, c)
+		res := runC09TLS(t, c, false)
 		r.LabelN("tls:well-formed-parties-served", res.served)
 		r.LabelN("tls:handshakes-left-pending", res.pending)
 		for _, p := range c.Parties {
@@ -365,6 +382,67 @@ func TestC09TLS(t *testing.T) {
 		if kind != "" {
 			r.NoteFail(kind, msg, c)
 			rt.Fatalf("C09 %s", kind)
+		}
+	})
+}
+
+// TestC15TLS: the same parties, judged for C15 - after Server.Close no connection that the TLS
+// listener accepted is left open at the server's end (completed, failed and pending handshakes).
+func TestC15TLS(t *testing.T) {
+	r := vkit.Start(t, "C15")
+	defer r.Finish()
+	do := func(c *C09TLSCase, sample string) (string, string) {
+		r.Eval(1)
+		res := runC09TLS(t, c, true)
+		for _, p := range c.Parties {
+			r.Label("tls-party:" + p.Kind)
+		}
+		if len(c.Parties) > 0 {
+			r.NonTrivial(vkit.Hash64(c))
+			if sample != "" {
+				r.Sample(sample, func() any { return c })
+			}
+		}
+		if res.kind != "" && r.IsKnown("C15."+res.kind) {
+			return "", ""
+		}
+
+		return res.kind, res.msg
+	}
+	if r.Replay != "" {
+		var c C09TLSCase
+		if err := vkit.LoadJSON(r.Replay, &c); err != nil || !c.TLS {
+			fmt.Println("REPLAY-NOT-MINE: not a TLS listener case")
+
+			return
+		}
+		kind, msg := do(&c, "")
+		fmt.Printf("replay %s: kind=%q %s\n", r.Replay, kind, msg)
+		if kind != "" {
+			r.Violate(kind, msg, &c)
+		}
+
+		return
+	}
+	for _, f := range r.RegressFiles(".tls.json") {
+		var c C09TLSCase
+		if err := vkit.LoadJSON(f, &c); err != nil {
+			t.Fatalf("bad regress file %s: %v", f, err)
+		}
+		if kind, msg := do(&c, ""); kind != "" {
+			r.Violate(kind, "regress "+f+": "+msg, &c)
+		}
+	}
+	if r.Violations() > 0 {
+		return
+	}
+	r.Rapid(t, "tls-teardown", 0, r.Checks, func(rt *rapid.T) {
+		c := genC09TLS(rt)
+		r.Journal(c)
+		kind, msg := do(c, "tls-teardown")
+		if kind != "" {
+			r.NoteFail(kind, msg, c)
+			rt.Fatalf("C15 %s", kind)
 		}
 	})
 }
